@@ -376,4 +376,13 @@ def keysSymAt (S : Schema) (m : Nat) : Bool :=
 
 def keysSymOk (S : Schema) : Bool := (List.range S.msgs.length).all (keysSymAt S)
 
+
+/-- the reader of a resource message has no `case` for its deprecated list (field 1000): a JSON document cannot populate it -/
+def depUncovAt (S : Schema) (r : Nat) : Bool :=
+  match slotIdx (S.slots r) 1000 with
+  | none => true
+  | some d => (match (S.slots r)[d]? with | some (.one f) => !covered S r f && f.card == .rep | _ => false)
+
+def depUncovOk (S : Schema) : Bool := (List.range S.msgs.length).all (depUncovAt S)
+
 end OtelVerif.C08
